@@ -222,7 +222,7 @@ def check_C01(chk):
     chk.borrow(lambda: (c11a(chk), c11b(chk)), "C01.h", 4)
     # .. and that what read_site classifies is what the record holds: the genotype readers hand on every decoded column, for both formats
     import rules_io as RIO1_
-    chk.borrow(lambda: (RIO1_.reader_outcomes(chk, "C10.e"), RG_.c08d(chk)), "C01.i", 8)
+    chk.borrow(lambda: (RIO1_.reader_outcomes(chk, "C10.e"), RG_.c08d(chk), RG_.bcf_magic_tested_for_both_containers(chk, "C12.d")), "C01.i", 9)
     chk.floor("C01.a", 3)
     chk.floor("C01.b", 4)
     chk.floor("C01.c", 3)
